@@ -27,6 +27,7 @@ PS(v, alt, env) == [v |-> v, alt |-> alt, env |-> env, ngiven |-> 9]
 PSG(v, alt, env, g) == [v |-> v, alt |-> alt, env |-> env, ngiven |-> g]
 XY == [X |-> <<2, 1, 0>>, Y |-> <<3, 2, 0>>]
 XY2 == [X |-> <<5, 1, -3>>, Y |-> <<12, 1, 0>>]
+XY0 == [X |-> <<0, 1, 0>>, Y |-> <<3, 2, 0>>]
 HSenv(xy) == [X |-> xy.X, Y |-> xy.Y, R |-> <<83145, 10000, 0>>, kB |-> <<1380649, 1000000, -23>>,
               h |-> <<662607015, 100000000, -34>>]
 PolyV1 == [ref |-> <<298, 1, 0>>, c0 |-> <<3, 1, 0>>, c1 |-> <<-1, 4, 0>>, c2 |-> <<1, 100, 0>>]
@@ -40,7 +41,8 @@ NoEnv == [zz |-> <<0, 1, 0>>]
 
 GridDef == [
   MassAction |-> { PS([k |-> <<314, 100, 0>>], [k |-> <<5, 1, -2>>], XY),
-                   PS([k |-> <<7, 1, 9>>], [k |-> <<1, 3, 0>>], XY2) },
+                   PS([k |-> <<7, 1, 9>>], [k |-> <<1, 3, 0>>], XY2),
+                   PS([k |-> <<0, 1, 0>>], [k |-> <<0, 1, 0>>], XY), PS([k |-> <<5, 1, 0>>], [k |-> <<0, 1, 0>>], XY0) },
   Arrhenius  |-> { PS([A |-> <<1, 1, 11>>, Ea_over_R |-> <<5000, 1, 0>>], [A |-> <<7, 2, 9>>, Ea_over_R |-> <<12025, 2, 0>>], XY),
                    PS([A |-> <<5, 2, -3>>, Ea_over_R |-> <<0, 1, 0>>], [A |-> <<4, 1, 0>>, Ea_over_R |-> <<25, 1, 3>>], XY2) },
   Eyring     |-> { PS([kB_h_times_exp_dS_R |-> <<1, 1, 10>>, dH_over_R |-> <<5000, 1, 0>>, conc0 |-> <<2, 1, 0>>],
@@ -51,7 +53,8 @@ GridDef == [
                       [dH |-> <<72, 1, 3>>, dS |-> <<614, 10, 0>>, c0 |-> <<1, 2, 0>>], HSenv(XY)),
                    PSG([dH |-> <<95, 1, 3>>, dS |-> <<15, 1, 0>>, c0 |-> <<1, 1, 0>>],
                        [dH |-> <<72, 1, 3>>, dS |-> <<614, 10, 0>>, c0 |-> <<1, 2, 0>>], HSenv(XY2), 2) },
-  Radiolytic |-> { PS([g |-> <<21, 10, -7>>], [g |-> <<45, 100, -7>>], [density |-> <<998, 1000, 0>>, doserate |-> <<15, 100, 0>>]) },
+  Radiolytic |-> { PS([g |-> <<21, 10, -7>>], [g |-> <<45, 100, -7>>], [density |-> <<998, 1000, 0>>, doserate |-> <<15, 100, 0>>]),
+                   PS([g |-> <<21, 10, -7>>], [g |-> <<0, 1, 0>>], [density |-> <<998, 1000, 0>>, doserate |-> <<0, 1, 0>>]) },
   RadiolyticAB |-> { PS([g_alpha |-> <<1, 1, -7>>, g_beta |-> <<2, 1, -7>>], [g_alpha |-> <<8, 10, -7>>, g_beta |-> <<45, 100, -7>>],
                         [density |-> <<998, 1000, 0>>, doserate_alpha |-> <<15, 100, 0>>, doserate_beta |-> <<3, 10, 0>>]) },
   RadiolyticGA |-> { PS([g_gamma |-> <<1, 1, -7>>, g_alpha |-> <<3, 1, -7>>], [g_gamma |-> <<8, 10, -7>>, g_alpha |-> <<45, 100, -7>>],
@@ -72,7 +75,8 @@ GridDef == [
                        q0 |-> <<-9, 1, 0>>, q1 |-> <<2, 100, 0>>, hi |-> <<2000, 1, 0>>], NoEnv, NoEnv),
                    PS([lo |-> <<0, 1, 0>>, p0 |-> <<5, 1, 0>>, p1 |-> <<0, 1, 0>>, mid |-> <<5963, 20, 0>>,
                        q0 |-> <<5, 1, 0>>, q1 |-> <<0, 1, 0>>, hi |-> <<3000, 1, 0>>], NoEnv, NoEnv) },
-  RampedTemp |-> { PS([T0 |-> <<298, 1, 0>>, dTdt |-> <<1, 2, 0>>], [T0 |-> <<27315, 100, 0>>, dTdt |-> <<-1, 10, 0>>], [time |-> <<30, 1, 0>>]) },
+  RampedTemp |-> { PS([T0 |-> <<298, 1, 0>>, dTdt |-> <<1, 2, 0>>], [T0 |-> <<27315, 100, 0>>, dTdt |-> <<-1, 10, 0>>], [time |-> <<30, 1, 0>>]),
+                   PS([T0 |-> <<298, 1, 0>>, dTdt |-> <<0, 1, 0>>], [T0 |-> <<0, 1, 0>>, dTdt |-> <<0, 1, 0>>], [time |-> <<0, 1, 0>>]) },
   SinTemp |-> { PS([Tbase |-> <<300, 1, 0>>, Tamp |-> <<10, 1, 0>>, angvel |-> <<1, 2, 0>>, phase |-> <<1, 10, 0>>],
                    [Tbase |-> <<350, 1, 0>>, Tamp |-> <<5, 2, 0>>, angvel |-> <<3, 1, 0>>, phase |-> <<-1, 1, 0>>], [time |-> <<5, 1, 0>>]),
                 PS([Tbase |-> <<300, 1, 0>>, Tamp |-> <<10, 1, 0>>, angvel |-> <<1, 1, 0>>, phase |-> <<-5, 1, 0>>],
@@ -108,6 +112,9 @@ GridDef == [
                          v2 |-> <<1, 4, 0>>, hi |-> <<1500, 1, 0>>], NoEnv, NoEnv),
                      PS([lo |-> <<100, 1, 0>>, v0 |-> <<-1, 1, 0>>, m1 |-> <<250, 1, 0>>, v1 |-> <<2, 1, 0>>, m2 |-> <<400, 1, 0>>,
                          v2 |-> <<9, 1, 0>>, hi |-> <<2000, 1, 0>>], NoEnv, NoEnv) },
+  CallbackDefault |-> { PSG([a |-> <<3, 2, 0>>, b |-> <<7, 1, 0>>], [a |-> <<0, 1, 0>>, b |-> <<-2, 1, 0>>], NoEnv, 1),
+                        PS([a |-> <<3, 2, 0>>, b |-> <<7, 1, 0>>], [a |-> <<0, 1, 0>>, b |-> <<-2, 1, 0>>], NoEnv) },
+  CallbackNargs |-> { PS([a |-> <<3, 2, 0>>, b |-> <<0, 1, 0>>], [a |-> <<0, 1, 0>>, b |-> <<-2, 1, 0>>], NoEnv) },
   LeastSquares |-> { PS([b0 |-> <<3, 2, 0>>, b1 |-> <<-7, 4, 0>>], NoEnv, NoEnv), PS([b0 |-> <<0, 1, 0>>, b1 |-> <<1, 3, 0>>], NoEnv, NoEnv) }
 ]
 TempsQ == { <<5963, 20, 0>>, <<2000, 1, 0>> }
